@@ -212,3 +212,10 @@ Definition update_store (inp : depgraph_in) (s : store) (mode : N -> update_mode
   {| st_criteria := st_criteria s;
      st_pkgs := map (fun '((name, ps), (_, u)) => (name, apply_pkg_update ps u))
                     (combine (st_pkgs s) (get_store_updates inp s mode)) |}.
+
+(* ---- executable form of the conditions a loaded store satisfies (proofs/EndToEnd.v: store_ok) ---- *)
+Definition store_okb (inp : depgraph_in) (s : store) : bool :=
+  ct_acyclic (st_criteria s)
+  && forallb (fun '(_, ps) => forallb (fun x => forallb (fun c => N.ltb c (N.of_nat (ct_len (st_criteria s)))) (x_crit x)) (ps_exemptions ps))
+             (st_pkgs s)
+  && forallb (fun p => existsb (fun '(n0, _) => N.eqb n0 (pk_name p)) (st_pkgs s)) (g_pkgs (depgraph_new inp)).
